@@ -1,16 +1,13 @@
 use crate::{
-    layouts::{VecZnx, VecZnxToMut, VecZnxToRef, ZnxInfos},
-    reference::{
-        vec_znx::{vec_znx_rotate_assign, vec_znx_switch_ring},
-        znx::{ZnxCopy, ZnxRotate, ZnxSwitchRing, ZnxZero},
-    },
+    layouts::{VecZnx, VecZnxToMut, VecZnxToRef, ZnxInfos, ZnxView, ZnxViewMut},
+    reference::znx::{ZnxCopy, ZnxRotate, ZnxSwitchRing, ZnxZero},
 };
 
 pub fn vec_znx_merge_rings_tmp_bytes(n: usize) -> usize {
     n * size_of::<i64>()
 }
 
-pub fn vec_znx_merge_rings<R, A, ZNXARI>(res: &mut R, res_col: usize, a: &[A], a_col: usize, tmp: &mut [i64])
+pub fn vec_znx_merge_rings<R, A, ZNXARI>(res: &mut R, res_col: usize, a: &[A], a_col: usize, _tmp: &mut [i64])
 where
     R: VecZnxToMut,
     A: VecZnxToRef,
@@ -22,7 +19,7 @@ where
 
     #[cfg(debug_assertions)]
     {
-        assert_eq!(tmp.len(), res.n());
+        assert_eq!(_tmp.len(), res.n());
 
         debug_assert!(_n_out > _n_in, "invalid a: output ring degree should be greater");
         a[1..].iter().for_each(|ai| {
@@ -37,10 +34,24 @@ where
         assert_eq!(a.len(), _n_out / _n_in);
     }
 
-    a.iter().for_each(|ai| {
-        vec_znx_switch_ring::<_, _, ZNXARI>(&mut res, res_col, ai, a_col);
-        vec_znx_rotate_assign::<_, ZNXARI>(-1, &mut res, res_col, tmp);
+    // res(X) = sum_i X^i * a_i(X^gap): coefficient k of part i lands at index k * gap + i.
+    // (Chaining switch_ring + rotate does not work: switch_ring zeroes its output when upsampling,
+    // which erases the parts merged so far.)
+    let gap: usize = a.len();
+    let res_size: usize = res.size();
+    a.iter().enumerate().for_each(|(i, ai)| {
+        let ai: VecZnx<&[u8]> = ai.to_ref();
+        let min_size: usize = ai.size().min(res_size);
+        for j in 0..min_size {
+            res.at_mut(res_col, j)
+                .iter_mut()
+                .skip(i)
+                .step_by(gap)
+                .zip(ai.at(a_col, j).iter())
+                .for_each(|(r, x)| *r = *x);
+        }
+        for j in min_size..res_size {
+            res.at_mut(res_col, j).iter_mut().skip(i).step_by(gap).for_each(|r| *r = 0);
+        }
     });
-
-    vec_znx_rotate_assign::<_, ZNXARI>(a.len() as i64, &mut res, res_col, tmp);
 }
